@@ -32,6 +32,7 @@ RULE = ('random programs of 1-6 chained public operations (copy, slice, apply,'
         ' distinct = digest of (operation description, input file digest).')
 RULE += (" After a program on a receiver opened from disk the source is closed: every file obtained from it must still be well-formed. Reader receivers are also opened with the readers' rarely used keywords (bpch timeslice / noscale / nogroup, ARL cache).")
 RULE += (' One plain receiver from disk in three is written with netCDF4 directly, as other tools write archive files (float data variables packed as int16 with scale_factor/add_offset, masks as _FillValue).')
+RULE += (' One program in forty starts from a file written by other software in which an integer variable has missing cells and no missing code of its own, with a pointwise selection (two index lists) that includes such a cell; insertDimension also with a dimension that exists.')
 ASSUMPTIONS = [
     'in-domain = arguments generated from the file at hand: existing '
     'dimensions/variables, in-range indices, conforming operands, numeric '
